@@ -50,7 +50,26 @@ def factories():
         n.id = f"i{i % 3}"
         return n
 
-    return {"raw": raw, "expr": expr}
+    class Sized(BinaryTreeNode):
+        """what a user of the node class writes: the public setters overridden (calling super()) to keep a
+        per-node value up to date"""
+
+        def __init__(self, left=None, right=None, id=None):
+            self.relinked = 0
+            super().__init__(left, right, None, id)
+
+        def set_left(self, child=None, clear_old_child_parent=False):
+            self.relinked += 1
+            return super().set_left(child, clear_old_child_parent)
+
+        def set_right(self, child=None, clear_old_child_parent=False):
+            self.relinked += 1
+            return super().set_right(child, clear_old_child_parent)
+
+    def user(l, r, i):
+        return Sized(l, r, f"i{i % 3}") if i % 4 else BinaryTreeNode(l, r, None, f"i{i % 3}")
+
+    return {"raw": raw, "expr": expr, "user-subclass": user}
 
 
 class _StopStr(str):
@@ -343,12 +362,92 @@ def mutation_history(rec, rng, fac, kn, steps=12):
     rec.nontrivial(("mutation-history", kn, steps, rng.random()))
 
 
+def _iter_order(root, order):
+    """reference traversal with an explicit stack (for trees deeper than any recursion limit)"""
+    out, stack = [], [(root, 0)]
+    while stack:
+        n, state = stack.pop()
+        if n is None:
+            continue
+        if state == 1:
+            out.append(n)
+            continue
+        if order == "preorder":
+            stack += [(n.right, 0), (n.left, 0), (n, 1)]
+        elif order == "inorder":
+            stack += [(n.right, 0), (n, 1), (n.left, 0)]
+        else:
+            stack += [(n, 1), (n.right, 0), (n.left, 0)]
+    return out
+
+
+def deep_walk_answers(rec):
+    """expression trees deeper than the interpreter's DEFAULT recursion limit (right-deep, left-deep, zig-zag,
+    one-child chains): the listing helpers walk recursively, so running out of stack is understood (the pinned
+    code raises RecursionError: not decided); but a list, when one is returned, is the traversal."""
+    import sys
+    from mathy_core import expressions as E
+    from .. import contracts as _contracts
+
+    to_list = getattr(E.MathExpression.to_list, "__vmon_original__", E.MathExpression.to_list)
+    find_type = getattr(E.MathExpression.find_type, "__vmon_original__", E.MathExpression.find_type)
+
+    def build(kind, depth):
+        cur = E.VariableExpression("x")
+        for i in range(depth):
+            leaf = E.ConstantExpression(i)
+            if kind == "right":
+                cur = E.AddExpression(leaf, cur)
+            elif kind == "left":
+                cur = E.AddExpression(cur, leaf)
+            elif kind == "zigzag":
+                cur = E.AddExpression(leaf, cur) if i % 2 else E.MultiplyExpression(cur, leaf)
+            else:
+                cur = E.NegateExpression(cur)
+        return cur
+
+    old = sys.getrecursionlimit()
+    for kind in ("right", "left", "zigzag", "chain"):
+        for depth in (1100, 3000):
+            root = build(kind, depth)
+            for what in ("preorder", "inorder", "postorder", "find_type"):
+                sys.setrecursionlimit(1000)
+                _contracts.SUSPENDED[0] += 1        # the monitors walk recursively themselves
+                try:
+                    got = to_list(root, what) if what != "find_type" else find_type(root, E.MathExpression)
+                    err = None
+                except RecursionError:
+                    got, err = None, "RecursionError"
+                except Exception as e:
+                    got, err = None, type(e).__name__
+                finally:
+                    _contracts.SUSPENDED[0] -= 1
+                    sys.setrecursionlimit(old)
+                rec.ev()
+                rec.arm("query:deep-walk-under-default-limit")
+                if err == "RecursionError":
+                    continue
+                want = _iter_order(root, "inorder" if what == "find_type" else what)
+                if err is not None or len(got) != len(want) or any(a is not b for a, b in zip(got, want)):
+                    rec.violation("C14", "query_to_list" if what != "find_type" else "query_find_type", "a listing helper disagrees with the traversal",
+                                  {"deep_walk": True, "summary": f"a {kind} expression tree {depth} levels deep ({len(want)} nodes), default recursion limit: "
+                                   + (f"{what} raised {err}" if err else f"{what} returned {len(got)} entries ({len(set(map(id, got)))} distinct nodes), the traversal has {len(want)}")})
+                else:
+                    rec.arm("query:deep-walk-answered")
+
+
 def run(rec, cfg):
     MT.attach_visits("C14")
     MT.attach_queries("C14")
     fac = factories()
     nmax = cfg.scale(9, 12)
     rng = cfg.rng("c14")
+    from ..workloads import interrupted as _INT
+
+    if cfg.shard == 6 % cfg.nshards:
+        _INT.walk_cases(rec, "C14")
+    if cfg.shard == 5 % cfg.nshards:
+        deep_walk_answers(rec)
     idx = 0
     for s in W9.all_shapes_upto(nmax):
         idx += 1
@@ -417,6 +516,14 @@ def run(rec, cfg):
 
 
 def replay(rec, cfg, w):
+    if w.get("deep_walk"):
+        deep_walk_answers(rec)
+        return
+    if "failpoint" in w:
+        from ..workloads import interrupted as _INT
+
+        _INT.walk_cases(rec, "C14")      # deterministic: the whole family of cases is run again
+        return
     MT.attach_visits("C14")
     MT.attach_queries("C14")
     s = W9.parse_shape(w["shape"])
